@@ -131,6 +131,15 @@ ENGINES = {
         "chunk": {"quick": 500, "thorough": 5000},
         "kind": "C19 harness: real timesafeguard + health.GetServerStatus over a simulated wire (robusthttp client override) inside a synctest bubble",
     },
+    "e3/c04": {
+        "pkg": "./internal/api",
+        "virtual": ["core", "simsync"],
+        "add": {"internal/api/zz_verif_c04_test.go": "sim/e3/c04_test.go"},
+        "rewrite": ["syncseam"],
+        "gomaxprocs": 1,
+        "chunk": {"quick": 200, "thorough": 2000},
+        "kind": "E3 locksim + bubble: real api.getMessages on real OutputStreams with scheduler-owned locks; simulated client, disconnects, lagging replica store",
+    },
     "e3/c08": {
         "pkg": "./internal/outputstream",
         "virtual": ["core", "simsync"],
@@ -202,6 +211,23 @@ CHECKS = {
 }
 
 CHECKS.update({
+    "C04": {
+        "engine": "e3/c04",
+        "runs": {"quick": 6000, "thorough": 600000},
+        "level": "exploration",
+        "rule": ("scenario = output history of 1-12 batches (1-5 replies, each addressed to the client or not), a replica store holding a prefix, and 1-6 connections: connect to the up-to-date or the lagging store with the last received id, "
+                 "run the reader k lock-level steps, let the replica apply 1-3 batches (between any two lock acquisitions of the reader, during its 250ms back-off), consume k messages, disconnect after j messages (between or inside batches); "
+                 "epilogue: the replica catches up and the client resumes there; non-trivial = a resume in the middle of a batch on a store that did not hold that batch yet, or a mid-batch resume with batches applied during the connection; distinct = event-trace digest"),
+        "probes": ["connections_to_replica", "resume_midbatch", "resume_on_replica_without_batch", "resume_midbatch_on_replica_without_batch", "applies_during_connection", "cuts_inside_batch", "backoff_sleeps"],
+        "components": {"real": ["internal/api getMessages (resume logic)", "internal/outputstream", "goleveldb"],
+                       "stubbed": ["package sync of outputstream -> simsync", "the HTTP handler around getMessages (its per-session filter is mirrored by the simulated client; the real handler runs in the cluster engine)", "raft (replica = second OutputStream fed the same batches later)"]},
+        "claim": ("The concatenation of what a client receives over any sampled sequence of connections, disconnect points and replica lags is checked message by message against the sequence addressed to it: no duplicate, no gap, in order; "
+                  "after faults stop (replica caught up) a final resume delivers the rest within a bounded number of steps."),
+        "note": "resume points are never compacted away in these runs (no Delete); the handler's filter and JSON encoding are outside this engine.",
+        "technique": "deterministic simulation: cooperative lock-level scheduler + virtual clock, seeded disconnect/lag schedule, exactly-once/ordering oracle over the recorded client history",
+        "worker_timeout": {"quick": 240, "thorough": 3600},
+        "assumptions": ["simsync admits only real interleavings"],
+    },
     "C19": {
         "engine": "c19",
         "runs": {"quick": 20000, "thorough": 2000000},
